@@ -25,6 +25,16 @@ CHECKS = {
         "held to the order axioms only, as the property fixes no direction for them; <loop sort=> is exercised by the template checks.",
    technique="TLA+ order specification + Memory::Sort transcription checked by TLC; TLC batch oracle over recorded comparison and sort events",
    design="6 (C15)"),
+ "C20": dict(
+   text="The UTF-8/16/32 encoders and the JSON escape forms are an explicit TLA+ specification (QUnicode; its own round-trip and "
+        "well-formedness are checked by TLC). For every Unicode scalar value (thorough: all 1,112,064; quick: a boundary-dense subset "
+        "of ~8.5k) the output of Unicode::ToUTF for three widths and of JSON::Parse on the upper-hex, lower-hex and embedded escape "
+        "(surrogate pairs above U+FFFF) is recorded from the real code (exact-size buffers, ASan) and each event is evaluated by TLC "
+        "against the specification. The thorough tier is exhaustive over the property's quantifier.",
+   note="TLC as batch oracle (one initial state per event); JSON decodings that are unit-for-unit identical to the direct encoding "
+        "are logged compressed, the direct encoding itself is always compared by TLC.",
+   technique="TLA+ specification of UTF-8/16/32 and escape forms; TLC batch oracle over events recorded from Unicode::ToUTF and JSON::Parse",
+   design="6 (C20)"),
 }
 PENDING = "not yet claimed in this revision: its specification and conformance harness are still being built (DESIGN.md section 6 describes the plan)"
 m = {
